@@ -161,6 +161,27 @@ def generate(rng, tier):
             cases.append({"line": "G mono " + t_vec(vals, vlib.ff32, lay), "meta": {"v": vals}})
         else:
             cases.append({"line": f"{S} mono " + t_vec(list(v), gen.fi, lay), "meta": {"v": list(v)}})
+    # NaN in long, otherwise monotonic float vectors stored contiguously (seed C12-r6m1: a block-wise scan for long standard-layout
+    # vectors that ORs comparison flags never sees a NaN pair): NaN first, last, next to the ends, at block borders, anywhere
+    for n in ([33, 34, 40, 64, 65, 100, 257] if tier == "quick" else [33, 34, 40, 47, 64, 65, 66, 100, 128, 129, 257, 300, 1025]):
+        spots = {0, 1, 2, n - 1, n - 2, n // 2, 31, 32, 33} | {rng.randrange(n) for _ in range(4)}
+        for p_ in sorted(s_ for s_ in spots if 0 <= s_ < n):
+            for shape_ in ("rise", "fall", "plateau-rise", "flat"):
+                if shape_ == "rise":
+                    v = [float(i) for i in range(n)]
+                elif shape_ == "fall":
+                    v = [float(-i) for i in range(n)]
+                elif shape_ == "flat":
+                    v = [1.0] * n
+                else:
+                    a = rng.randint(1, n - 1)
+                    v = [0.0] * a + [float(i + 1) for i in range(n - a)]
+                v[p_] = math.nan
+                if rng.random() < 0.3:
+                    v[rng.randrange(n)] = math.nan
+                S = rng.choice(["F", "G"])
+                lay = rng.choice(["c", "c", "c", "rev", "s2", "w"])
+                cases.append({"line": f"{S} mono " + t_vec(v, ff if S == "F" else vlib.ff32, lay), "meta": {"v": v, "nan": True}})
     lens = [32, 33, 39, 40, 41, 64, 65, 100, 257, 300] if tier == "quick" else [32, 33, 34, 39, 40, 41, 47, 48, 49, 64, 65, 72, 100, 128, 129, 256, 257, 300, 513, 600]
     for n in lens:
         steps = set(range(0, min(n - 1, 10))) | set(range(max(0, n - 11), n - 1)) | {rng.randrange(n - 1) for _ in range(6)}
